@@ -5,7 +5,7 @@ TLC enumerates the program families of spec/C05.tla while running the reference 
 host function `log`, and TLC judges (log, completion | error) by running MiniJS again next to the
 observation.  Python only schedules: it never computes an expected value.
 """
-import json, os, random, itertools
+import json, os, random, itertools, time
 from harness import tlc, engine, render
 from checks import c05_gen
 from harness.common import Machinery
@@ -23,11 +23,19 @@ def key(c):
     return json.dumps(c, sort_keys=True)
 
 
+def timed(rep, phase, t0):
+    """wall seconds per phase, for the evidence file (information only)"""
+    d = rep.notes.setdefault("phase_seconds", {})
+    d[phase] = round(d.get(phase, 0.0) + time.time() - t0, 1)
+
+
 def enumerate_programs(rep, module, tier, tag="enum", cfg=ENUM_CFG, env=None, timeout=1500):
     """model-check MiniJS on every family program of `module` and collect the printed programs"""
     e = {"TIER": tier}
     e.update(env or {})
+    t0 = time.time()
     res = tlc.run(rep.pid, module, cfg, env=e, timeout=timeout, tag=tag)
+    timed(rep, "tlc_enumerate+invariants", t0)
     rep.add_tlc(module + "." + tag + " (MiniJS invariants on every state of every family program)", res)
     seen, cases = set(), []
     for c in res.records:
@@ -46,14 +54,18 @@ def enumerate_programs(rep, module, tier, tag="enum", cfg=ENUM_CFG, env=None, ti
 
 def run_engine(rep, cases, tag="eng", hashseed="0", procs=None, driver="checks.c05_driver:driver"):
     inp = [{"id": c["id"], "prog": c["prog"], "dl": c.get("dl", 0), "dc": c.get("dc", 0)} for c in cases]
+    t0 = time.time()
     res = engine.run_cases(rep.pid, inp, driver=driver, tag=tag, hashseed=hashseed, procs=procs)
+    timed(rep, "engine", t0)
     return {r["id"]: r for r in res}
 
 
 def _judge_pass(rep, module, recs, cfg, tag, count=True):
     if not recs:
         return {}
+    t0 = time.time()
     verdicts, st, tr, wall = tlc.judge(rep.pid, module, recs, cfg, shards=min(16, max(1, len(recs) // 25)), tag=tag)
+    timed(rep, "tlc_judge", t0)
     if count:
         rep.add_judge(len(recs), st, tr)
     else:
@@ -167,7 +179,7 @@ def run(rep):
     verdicts = judge(rep, "C05", recs)
     report(rep, cases, results, verdicts)
     # seeded random larger programs (generated as ASTs; the reference outcome is computed by TLC in the judge run)
-    nrand = int(os.environ.get("C05_NRAND", "300" if rep.tier == "quick" else "5000"))
+    nrand = int(os.environ.get("C05_NRAND", "300" if rep.tier == "quick" else "3000"))
     rnd = random.Random(rep.seed)
     rcases = [{"id": "r%d" % i, "fam": "RND", "par": {"seed": rep.seed, "n": i}, "prog": c05_gen.random_program(rnd)}
               for i in range(nrand)]
